@@ -502,3 +502,77 @@ func c03Coercion(p *Prog) *RuleResult {
 	r.Floor(40)
 	return r
 }
+
+// C03/R9 integer-test elimination is sign agnostic.
+//
+// In a boolean context esbuild drops a comparison with zero when the other operand is known to be
+// an integer: `if ((a >>> b) !== 0)` becomes `if (a >>> b)`. The licence is isInt32OrUint32(x) — x is
+// an integer, of either signedness. For such x only (in)equality with zero coincides with
+// truthiness (x !== 0 ⇔ x is truthy, x === 0 ⇔ !x); an ordering test does not (x > 0 is false for
+// a negative int32 such as `flags & 0x80000000`, which is truthy). So the rewrite guarded by
+// isInt32OrUint32 may be applied only under the operators ==, ===, !=, !==. The rule extracts the
+// behaviour of SimplifyBooleanExpr (E-ENUM, lenient) and requires every path on which
+// isInt32OrUint32 answered true to have selected one of those four operators.
+func c03IntegerTestOps(p *Prog) *RuleResult {
+	r := NewRule("C03/R9 integer-test-operators", "the boolean-context rewrite licensed by isInt32OrUint32 (an integer of either signedness) is applied only under ==, ===, != and !== — the comparisons with zero that coincide with truthiness for negative integers too")
+	pk := p.ByPath[modPath+"/internal/js_ast"]
+	fn := p.FindFunc("js_ast.(HelperContext).SimplifyBooleanExpr")
+	isInt := p.FindFunc("js_ast.isInt32OrUint32")
+	if !r.Anchor("package js_ast", pk != nil) || !r.Anchor("js_ast.(HelperContext).SimplifyBooleanExpr", fn != nil) || !r.Anchor("js_ast.isInt32OrUint32", isInt != nil) {
+		return r
+	}
+	opNames := map[int64]string{}
+	for n, v := range constsOfType(pk.Types, "OpCode") {
+		if strings.HasPrefix(n, "UnOp") || strings.HasPrefix(n, "BinOp") {
+			opNames[v] = n
+		}
+	}
+	base := c03Describe("js_ast.(HelperContext).SimplifyBooleanExpr")
+	cfg := &enumCfg{recursive: map[string]bool{}, inlined: map[string]func() []enumOutcome{}, lenient: true, opConsts: opNames, opField: "Op", maxPaths: 400000,
+		describe: func(e *enumEvaluator, s *enumState, v ssa.Value) (string, bool) {
+			if c, ok := v.(*ssa.Call); ok && c.Call.StaticCallee() == isInt {
+				return "isInt32OrUint32", true
+			}
+			return base(e, s, v)
+		}}
+	outs, problems := enumEvaluate(p, fn, cfg)
+	for _, pr := range problems {
+		r.Instances++
+		r.Fail("undecidable: "+pr, "", "SimplifyBooleanExpr could not be walked at "+pr)
+	}
+	allowed := map[string]bool{"BinOpStrictEq": true, "BinOpStrictNe": true, "BinOpLooseEq": true, "BinOpLooseNe": true}
+	ops := map[string]token.Pos{}
+	for _, o := range outs {
+		licensed := false
+		for _, l := range o.labels {
+			if l == "isInt32OrUint32=T" {
+				licensed = true
+			}
+		}
+		if licensed {
+			op := o.op
+			if op == "" {
+				op = "(no operator selected)"
+			}
+			if _, ok := ops[op]; !ok {
+				ops[op] = o.pos
+			}
+		}
+	}
+	var names []string
+	for op := range ops {
+		names = append(names, op)
+	}
+	sort.Strings(names)
+	for _, op := range names {
+		r.Instances++
+		key := "rewrite licensed by isInt32OrUint32 under " + op
+		if allowed[op] {
+			r.OK(key, true, "an (in)equality with zero: coincides with truthiness for every integer")
+		} else {
+			r.Fail(key, p.Pos(ops[op]), "the comparison with zero is dropped under "+op+" although the operand is only known to be an integer of either signedness: for a negative int32 (e.g. `x & 0x80000000`) the comparison and the truthiness of the operand differ")
+		}
+	}
+	r.Anchor("paths of SimplifyBooleanExpr licensed by isInt32OrUint32", len(names) >= 2)
+	return r
+}
